@@ -62,6 +62,11 @@ func (e *Engine) VerifyLemma(lem *Lemma, sp *ssa.Package) (res *FnResult) {
 			fv.q.assume(p.term)
 		}
 	}
+	fv.lemmaMode = true
+	fv.reach[nil] = "true"
+	for _, c := range lem.Calls {
+		fv.lemmaCall(ce, c, st)
+	}
 	fv.probe("pre-sat", "", "")
 	for _, c := range lem.Concl {
 		for _, p := range ce.evalClause(c) {
